@@ -462,7 +462,11 @@ def history_case(draw, tier="quick"):
     # that height, then looked up again" happens often
     focus_h, focus_i = draw(st.integers(0, 9)), draw(st.integers(0, 8))
     for _ in range(draw(st.integers(2, 10))):
-        kind = draw(st.sampled_from(["verify", "verify", "verify", "reorg", "read"]))
+        kind = draw(st.sampled_from(["verify", "verify", "verify", "reorg", "read", "batch_race"]))
+        if kind == "batch_race":
+            ops.append({"op": "batch_race", "h": draw(st.sampled_from([focus_h, draw(st.integers(0, 9))])),
+                        "i": draw(st.integers(0, 8)), "a": draw(st.integers(0, 255)), "len": draw(st.integers(1, 4))})
+            continue
         if kind == "verify":
             ops.append({"op": "verify", "h": draw(st.sampled_from([focus_h, focus_h, draw(st.integers(0, 9))])),
                         "i": draw(st.sampled_from([focus_i, focus_i, draw(st.integers(0, 8))])),
@@ -530,6 +534,87 @@ def run_history(case):
             except Exception as e:
                 out.violate("history:header-get-raises:%s" % type(e).__name__, repr(e)[:200])
                 return out
+        elif op["op"] == "batch_race":
+            # one cached request for two transactions: X (lower height, proof in the batch reply) is verified first, Y comes
+            # without a proof, and while the wallet asks for it the server announces a reorganisation that replaces X's block.
+            # Whatever that request returns, a later cached look-up of X must not hand it out as verified at a height whose
+            # stored header no longer commits to it.
+            if length < 3:
+                continue
+            hx = 1 + op["h"] % (length - 2)
+            hy = hx + 1 + op["a"] % (length - 1 - hx)
+            if hx not in variant or hy not in variant:
+                continue
+            rx, lx, _ = blk(hx, variant[hx])
+            ry, ly, _ = blk(hy, variant[hy])
+            ix, iy = op["i"] % len(rx), op["a"] % len(ry)
+            raw_x, raw_y = rx[ix][0], ry[iy][0]
+            idx_, idy_ = M.to_wire(M.dsha256(raw_x)), M.to_wire(M.dsha256(raw_y))
+            proof_x = {"merkle": [M.to_wire(b) for b in M.merkle_branch(lx, ix)], "pos": ix, "block_height": hx}
+            proof_y = {"merkle": [M.to_wire(b) for b in M.merkle_branch(ly, iy)], "pos": iy, "block_height": hy}
+            v = step + 1
+            new_len = max(op["len"], length - hx)
+            chunk = build(hx, new_len, v)
+            state = {"done": False}
+
+            class RaceNetwork(HistoryNetwork):
+                async def get_transaction_batch(self, txids, restricted=True):
+                    return {idx_: (raw_x.hex(), dict(proof_x)), idy_: (raw_y.hex(), None)}
+
+                async def get_merkle(self, txid, height):
+                    if not state["done"]:
+                        state["done"] = True
+                        server_chain["bytes"] = stored()[:hx * HEADER_SIZE] + chunk
+                        await ledger.update_headers(height=hx + new_len - 1, headers=chunk[-HEADER_SIZE:].hex(),
+                                                    subscription_update=True)
+                    return dict(proof_y)
+            ledger.network = RaceNetwork(server_chain, lambda: None)
+
+            async def fetch2():
+                got = {}
+                async for batch in ledger.request_transactions(((idx_, hx), (idy_, hy)), cached=True):
+                    got.update(batch)
+                return got
+            try:
+                aio.run(fetch2())
+            except Exception as e:  # the request may fail: its placeholders were dropped with the cache
+                out.label("batch_race:request-raised:%s" % type(e).__name__)
+            if not state["done"] or stored()[hx * HEADER_SIZE:] != chunk:
+                out.label("batch_race:reorg-did-not-happen")
+                if state["done"]:
+                    out.violate("history:harness:race-reorg-not-connected", "")
+                    return out
+                continue
+            for k in list(variant):
+                if k >= hx:
+                    old_variants[k] = variant.pop(k)
+            for k in range(hx, hx + new_len):
+                variant[k] = v
+            nreorg += 1
+            # later look-up of X through the cache; the server now has no proof for it (it is not in the new block)
+            ledger.network = HistoryNetwork(server_chain, lambda: (raw_x, {"block_height": hx}))
+
+            async def fetch3():
+                got = {}
+                async for batch in ledger.request_transactions(((idx_, hx),), cached=True):
+                    got.update(batch)
+                return got
+            try:
+                got = aio.run(fetch3())
+            except Exception:
+                got = {}
+            tx = got.get(idx_)
+            if tx is not None and tx.is_verified is True:
+                th = tx.height
+                buf2 = stored()
+                genuine = M.fold(M.dsha256(raw_x), M.merkle_branch(lx, ix), ix)
+                if not (isinstance(th, int) and 0 < th < len(buf2) // HEADER_SIZE and
+                        genuine == buf2[th * HEADER_SIZE + 36: th * HEADER_SIZE + 68]):
+                    out.violate("history:verified-against-replaced-header:reorg-during-batch",
+                                "X at height %d (recorded %r) is handed out as verified after its block was replaced while the "
+                                "batch was being verified" % (hx, th))
+                    return out
+            out.label("batch_race")
         elif op["op"] == "reorg":
             f = 1 + (op["from"] - 1) % (length - 1) if length > 1 else 1
             v = step + 1
